@@ -37,6 +37,19 @@ def zone_hex(case, zones):
     return None
 
 
+def sanitizer_text(case, work, harness_kw=None, env=None):
+    """re-run one case alone and return what the sanitizers printed"""
+    try:
+        har, _ = C.build_harness(**(harness_kw or {}))
+        cp = os.path.join(work, "one.cases")
+        with open(cp, "w") as f:
+            f.write(case.split("  #K=")[0] + "\n")
+        C.run_exe(har, cp, os.path.join(work, "one.out"), env=env)
+        return open(os.path.join(work, "one.out.err")).read()[-3000:]
+    except Exception as e:
+        return "(could not re-run: %s)" % e
+
+
 def run_cases(pid, cases, work, harness_kw=None, env=None):
     """Build both sides from the current tree and run them.  Returns
     (impl_lines, drv_lines, failures, buildinfo) or raises RuntimeError."""
@@ -104,7 +117,7 @@ def run_property(pid, spec, tier, seed, work, t0, replay=None, no_prove=False):
                          "checker_cmd": "coqc (make -C coq) + Print Assumptions", "trusted_base": C.TRUSTED_BASE,
                          "explanation": "build failure"}, time.time() - t0, 1)
         return 1
-    v = C.compare(cases, impl, drvl, fails, spec.get("norm"), ub_is_violation=spec.get("ub_is_violation", False))
+    v = C.compare(cases, impl, drvl, fails, spec.get("norm"), ub_is_violation=spec.get("ub_is_violation", False), model_err_is_violation=spec.get("model_err_is_violation", False))
     if "post" in spec:
         for (i, why) in spec["post"](cases, impl):
             v.prop_fail.append((i, cases[i], impl[i], "", "", why))
@@ -130,7 +143,7 @@ def run_property(pid, spec, tier, seed, work, t0, replay=None, no_prove=False):
         p = C.write_replay(pid, {"property": pid, "kind": "failing-input", "seed": seed, "tier": tier,
                                  "case": case, "zone_bytes_hex": zone_hex(case, zones), "implementation": il, "model": M, "specification": S, "why": why,
                                  "others": [it[1] for it in new_prop[1:20]],
-                                 "sanitizer": next((f[1] for f in fails), ""),
+                                 "sanitizer": sanitizer_text(case, work, spec.get("harness_kw"), env),
                                  "replay_cmd": "./check %s --replay <this file>" % pid})
         print("failing input: %s\n  implementation: %s\n  specification:  %s\n  (%s; %d such cases)" % (case, il, S, why, len(new_prop)))
         print("VIOLATION property=%s replay=%s" % (pid, p))
@@ -203,3 +216,6 @@ reg("C02", gen=gen_zone.gen_c02)
 reg("C03", gen=gen_zone.gen_c03)
 reg("C06", gen=gen_zone.gen_c06, post=gen_zone.post_c06)
 reg("C11", gen=gen_zone.gen_c11)
+reg("C10", gen=gen_zone.gen_c10, ub_is_violation=True)
+reg("C12", gen=gen_zone.gen_c12, ub_is_violation=True, model_err_is_violation=True)
+reg("C14", gen=gen_zone.gen_c14, post=gen_zone.post_c14)
